@@ -17,8 +17,8 @@ func init() {
 	core.Register(&core.Check{
 		ID: "C12", Level: "other", Title: "Ledger recovers exactly after a crash at any persistence point",
 		Technique: "call ordering on the CFG + symbolic loop-range extraction + who-may-write (batched writes only)",
-		Explain: "Structural necessary conditions of crash-exact recovery in core/store/ledgerstore: (order) in submitBlock the three save… calls precede every CommitTo and the commits happen in the order blockStore ≺ eventStore ≺ stateStore ≺ setCurrentBlock, each later step dominated by the earlier step's err==nil — this makes 'block store ahead of state store by committed blocks' the only possible crash image, which recoverStore assumes; (range) in recoverStore the set of heights replayed is extracted symbolically from the induction variable (initial value, exit comparison, argument offset) and must equal (stateHeight, blockHeight] with stateHeight = result of stateStore.GetCurrentBlock and blockHeight = GetCurrentBlockHeight(); inside the loop the order is NewBatch ≺ executeBlock ≺ saveBlockToStateStore ≺ saveBlockToEventStore ≺ eventStore.CommitTo ≺ stateStore.CommitTo, mirroring submitBlock; (atomic batches) no function reachable from saveBlockToBlockStore / saveBlockToStateStore / saveBlockToEventStore writes the underlying key-value store outside the batch (PersistStore.Put/Delete are forbidden there; only BatchPut/BatchDelete), so everything of one block in one store lands with that store's single commit. NOT decided: equality of the roots after recovery, file-hash-store truncation semantics, dropped errors of hashStore.Append/Flush.",
-		Run: runC12,
+		Explain:   "Structural necessary conditions of crash-exact recovery in core/store/ledgerstore: (order) in submitBlock the three save… calls precede every CommitTo and the commits happen in the order blockStore ≺ eventStore ≺ stateStore ≺ setCurrentBlock, each later step dominated by the earlier step's err==nil — this makes 'block store ahead of state store by committed blocks' the only possible crash image, which recoverStore assumes; (range) in recoverStore the set of heights replayed is extracted symbolically from the induction variable (initial value, exit comparison, argument offset) and must equal (stateHeight, blockHeight] with stateHeight = result of stateStore.GetCurrentBlock and blockHeight = GetCurrentBlockHeight(); inside the loop the order is NewBatch ≺ executeBlock ≺ saveBlockToStateStore ≺ saveBlockToEventStore ≺ eventStore.CommitTo ≺ stateStore.CommitTo, mirroring submitBlock; (atomic batches) no function reachable from saveBlockToBlockStore / saveBlockToStateStore / saveBlockToEventStore writes the underlying key-value store outside the batch (PersistStore.Put/Delete are forbidden there; only BatchPut/BatchDelete), so everything of one block in one store lands with that store's single commit. NOT decided: equality of the roots after recovery, file-hash-store truncation semantics, dropped errors of hashStore.Append/Flush.",
+		Run:       runC12,
 	})
 }
 
@@ -95,9 +95,9 @@ func runC12(c *core.Ctx) {
 	if rs != nil {
 		checkRecoverRange(c, rs)
 		// loop-body order
-		gbh := ir.Calls(rs, storeCall("blockStore", "GetBlockHash"))
-		if len(gbh) == 1 {
-			opt := &eng.Opt{Start: gbh[0]}
+		rr := findReplayRead(rs)
+		if rr != nil {
+			opt := &eng.Opt{Start: rr.site}
 			seq := []struct {
 				desc string
 				pred func(ssa.CallInstruction) bool
@@ -122,16 +122,11 @@ func runC12(c *core.Ctx) {
 			// the block replayed is the one fetched for that height
 			for _, ex := range ir.Calls(rs, methodCall("executeBlock")) {
 				blk := ex.Common().Args[1]
-				okB := false
-				if cl, idx := ir.CallOf(blk); cl != nil && idx == 0 && storeCall("blockStore", "GetBlock")(cl) {
-					if h, hi := ir.CallOf(cl.Common().Args[1]); h != nil && hi == 0 && h == gbh[0].(*ssa.Call) {
-						okB = true
-					}
-				}
+				okB := rr.isBlock(blk)
 				c.Decide(okB, "C12.replay-order", rs, "the block executed is blockStore.GetBlock(blockStore.GetBlockHash(i))", c.P.Rel(ex.Pos()), "")
 			}
 		} else {
-			c.Broken("C12.replay-order", rs, "blockStore.GetBlockHash call", c.P.Rel(rs.Pos()), sprintf("%d calls", len(gbh)))
+			c.Broken("C12.replay-order", rs, "blockStore.GetBlockHash call", c.P.Rel(rs.Pos()), "neither a direct read nor a helper that reads the block of its height parameter")
 		}
 	}
 
@@ -183,12 +178,13 @@ func runC12(c *core.Ctx) {
 
 // checkRecoverRange extracts the replay range of recoverStore.
 func checkRecoverRange(c *core.Ctx, fn *ssa.Function) {
-	gbh := ir.Calls(fn, storeCall("blockStore", "GetBlockHash"))
-	if len(gbh) != 1 {
-		c.Broken("C12.replay-range", fn, "GetBlockHash(i) call", c.P.Rel(fn.Pos()), sprintf("%d", len(gbh)))
+	rr := findReplayRead(fn)
+	if rr == nil {
+		c.Broken("C12.replay-range", fn, "GetBlockHash(i) call", c.P.Rel(fn.Pos()), "neither a direct read nor a helper that reads the block of its height parameter")
 		return
 	}
-	arg := gbh[0].Common().Args[1]
+	gbh := []ssa.CallInstruction{rr.site}
+	arg := rr.height
 	// stateHeight: result #1 of stateStore.GetCurrentBlock ; blockHeight: GetCurrentBlockHeight()
 	isS := func(v ssa.Value) bool {
 		cl, idx := ir.CallOf(v)
